@@ -128,6 +128,8 @@ class Runner(object):
             kw["take"] = step["take"]
         if step.get("timeout_s") is not None and op != "streaming_shell":
             kw["timeout_s"] = step["timeout_s"]
+        if step.get("transport_timeout_s") is not None:
+            kw["transport_timeout_s"] = step["transport_timeout_s"]
         return op, (step["cmd"],), kw, chunks
 
     def judge_shell(self, step, chunks, out):
